@@ -113,13 +113,17 @@ def replay_crate_dir():
     return dst
 
 
-def native_test(test_file, name_filter="", features=(), release=False, timeout=1800):
+def native_test(test_file, name_filter="", features=(), release=False, timeout=1800, rustflags=None):
     """run an ordinary cargo test of the replay crate against REPO; -> (failed: bool, log tail)"""
     d = replay_crate_dir()
     shutil.copy(os.path.join(REPO, "Cargo.lock"), os.path.join(d, "Cargo.lock"))
     env = dict(os.environ)
     env.update({"CARGO_TARGET_DIR": os.path.join(BUILD, "replay-native"), "CARGO_NET_OFFLINE": "true"})
     env.pop("RUSTFLAGS", None)
+    if rustflags:
+        # tests that need a verification hook are built with the cfg on, in their own target dir
+        env["RUSTFLAGS"] = rustflags
+        env["CARGO_TARGET_DIR"] = os.path.join(BUILD, "replay-native-verif")
     cmd = ["cargo", "test", "--offline", "--test", test_file]
     if features:
         cmd += ["--features", ",".join(features)]
